@@ -14,6 +14,9 @@ WEIGHTS = {'clone': 22, 'cloneArc': 12, 'conv': 20, 'cb': 16, 'drop': 12, 'cmp':
 
 def run(ctx):
     histcheck.run(ctx, MODULE, WEIGHTS, TAGS, lean_extra=EXTRA)
+    # "... never change the count, not even while the borrow is in use": conversions and borrows under a concurrent observer
+    from vlib import miri
+    miri.observer_pass(ctx, "C04")
 
 
 def replay(ctx, path):
